@@ -88,6 +88,18 @@ func init() {
 		Old:  "func UUIDv3(_ *transformctx.Ctx, s string) (string, error) {\n\treturn uuid.NewMD5(uuid.Nil, []byte(s)).String(), nil",
 		New:  "var uuidv3Hash = md5.New()\n\nfunc UUIDv3(_ *transformctx.Ctx, s string) (string, error) {\n\treturn uuid.NewHash(uuidv3Hash, uuid.Nil, []byte(s), 3).String(), nil",
 		Rule: "R14b", Substr: "uuidv3Hash", Why: "one digest object shared by every checksum computation"})
+	control(Control{ID: "c15-local-zone-format", Prop: "C15", File: "customfuncs/datetime.go",
+		Old: "\treturn rfc3339(t.In(loc), true), nil", New: "\tif len(tz) == 1 {\n\t\tt = t.In(loc)\n\t}\n\treturn rfc3339(t, true), nil",
+		Rule: "R15i", Substr: "Time.Format", Why: "without a tz argument the epoch is formatted in the process's local zone"})
+	control(Control{ID: "c15-memo-on-shared-decl", Prop: "C15", File: "extensions/omniv21/transform/parse.go",
+		Old: "\tif v, found := p.transformCtx.External(*decl.External); found {", New: "\tif v, found := p.transformCtx.External(*decl.External); found {\n\t\tdecl.fqdn = decl.fqdn + \"\"",
+		Rule: "R15h", Substr: "parseExternal", Why: "value memoised into a declaration shared by every transform of the schema"})
+	control(Control{ID: "c15-cache-key-digest", Prop: "C15", File: "extensions/omniv21/customfuncs/javascript.go",
+		Old: "\tp, err := JSProgramCache.Get(js, func(interface{}) (interface{}, error) {", New: "\tp, err := JSProgramCache.Get(len(js), func(interface{}) (interface{}, error) {",
+		Rule: "R15j", Substr: "getProgram", Why: "program cache keyed by a non-injective digest of the script"})
+	control(Control{ID: "c10-memo-on-shared-decl", Prop: "C10", File: "extensions/omniv21/transform/parse.go",
+		Old: "\tif v, found := p.transformCtx.External(*decl.External); found {", New: "\tif v, found := p.transformCtx.External(*decl.External); found {\n\t\tdecl.fqdn = decl.fqdn + \"\"",
+		Rule: "R10i", Substr: "parseExternal", Why: "value memoised into the shared declarations while records are read"})
 	control(Control{ID: "c15-vm-dirty-after-error", Prop: "C15", File: "extensions/omniv21/customfuncs/javascript.go",
 		Old: "\t\t\tfor arg := range args {\n\t\t\t\t_ = vm.GlobalObject().Delete(arg)\n\t\t\t}", New: "\t\t\t_ = vm.GlobalObject().Delete(argNameNode)",
 		Rule: "R15g", Substr: "execProgram", Why: "script arguments of an earlier transform stay visible in the pooled VM"})
